@@ -59,7 +59,7 @@ Proof.
   induction l as [|b l IH]; intros v cons n r; cbn [lex_uint].
   - destruct cons; [|discriminate]. intros H; injection H as <- <-. exists []. reflexivity.
   - destruct (is_digit b).
-    + destruct ((v * 10 + (b - c_0)) mod two64 <? v); [discriminate|].
+    + destruct (_ <? v); [discriminate|].
       intros H. destruct (IH _ _ _ _ H) as [p ->]. exists (b :: p). reflexivity.
     + destruct (b =? c_nul); [intros H; injection H as <- <-; exists [b]; reflexivity|].
       destruct cons; [|discriminate]. intros H; injection H as <- <-. exists []. reflexivity.
